@@ -65,6 +65,18 @@ def parseOp (ws : List String) : Option Op :=
     match u.toNat?, d.toNat?, o.toNat?, sent.toNat? with
     | some u, some d, some o, some sent => some (.swapBad u d o sent)
     | _, _, _, _ => none
+  | ["wdirect", u, _denom, a] =>
+    match u.toNat?, a.toNat? with
+    | some u, some a => some (.foreign 0 u a)
+    | _, _ => none
+  | ["wfake", u, _asset, a] =>
+    match u.toNat?, a.toNat? with
+    | some u, some a => some (.foreign 1 u a)
+    | _, _ => none
+  | ["sfake", u, a] =>
+    match u.toNat?, a.toNat? with
+    | some u, some a => some (.foreign 2 u a)
+    | _, _ => none
   | _ => none
 
 def opLine (s : St) (ws : List String) : St × String :=
